@@ -39,9 +39,12 @@ static void u_apply_pos(void) {
 }
 
 static void run_unit(int n, char **lines) {
-  ds_log_wire = 0; ds_log_conn = 0;
-  ds_boot(0);
+  /* gpio module only: no devconn (its watchdog timer would be a foreign timer in the MGC stream) */
+  v_quiet = 1; v_on_restart = ds_restart_hook;
+  memset(&supla_esp_cfg, 0, sizeof supla_esp_cfg); memset(&supla_esp_state, 0, sizeof supla_esp_state);
+  memcpy(supla_esp_cfg.TAG, "SUPLA", 5);
   v_on_gpio_write = u_gpio_hook; c08_on_arm = u_arm_hook;
+  supla_esp_gpio_init();
   for (int p = 0; p < 32; p++) u_pin_idx[p] = -1;
   u_n = v_board.nrs;
   for (int i = 0; i < u_n; i++) {
@@ -67,6 +70,7 @@ static void run_unit(int n, char **lines) {
     } else vout("UNKNOWN-EVENT");
     u_apply_pos();
   }
+  if (getenv("C08_DEBUG")) vout("DEBUG timers_fired=%llu now=%llu", v_timer_fired, v_now);
 }
 
 /* numeric CFG line (the model reads the same numbers):
